@@ -274,14 +274,26 @@ impl Run {
                 base.saturating_sub((-d) as u64)
             }
         };
+        // C02 erasure runs (B and C) must expand to the same consuming operations although only B's
+        // peeks narrow the model's set of possible cursors after an AtLeastOnce restart: there the
+        // budgets are aimed at the newest appended entries, which do not depend on the cursor
+        let stable = self.model.alo_restarted && self.opts.final_obs;
+        let n_app = tm.appended.len();
+        let nl = |k: usize| -> Option<u64> {
+            if stable {
+                n_app.checked_sub(1 + k).and_then(|i| tm.appended.get(i)).map(|e| e.len)
+            } else {
+                tm.next_len(k)
+            }
+        };
         match b {
             Budget::Zero => 0,
             Budget::One => 1,
-            Budget::NextLen(d) => adj(tm.next_len(0).unwrap_or(0), *d),
+            Budget::NextLen(d) => adj(nl(0).unwrap_or(0), *d),
             Budget::SumNext(k, d) => {
                 let mut s = 0u64;
                 for i in 0..*k as usize {
-                    s += tm.next_len(i).unwrap_or(0);
+                    s += nl(i).unwrap_or(0);
                 }
                 adj(s, *d)
             }
